@@ -5,30 +5,57 @@ open and clock are replaced by an in-memory store with a descriptor budget (real
 over per-path buffers).  EVERY write sequence up to the bound x every limiter setting x every fault
 plan: EMFILE budgets, every placement of <=2 transient open failures (deviation bound 2, placements
 discovered from the execution itself), permanent failure of one path.
+
+FastqHandle(single_cell=True) additionally: paired and single end, records without a cell index.
+
+The BAM splitter (bamProcessing/bamSplitByTag.py) is the third "one file per cell under a limit on open files" writer of
+the anchors: its limit is max_handles, and what does not fit waits for a further pass over the input.  EVERY word over an
+alphabet of reads (three cells, no tag, values whose file name must be cleaned, two values with the same cleaned name, an
+unmapped read, an integer tag) x max_handles x head x {one call of the real split_bam_by_tag with nothing / one cell
+already done / the default arguments, the real script run as __main__ so that its own retry loop makes the passes}; the
+script's pysam is a counting pass-through (open output files, passes), Pool is the deterministic ScheduledPool; a thin
+slice runs the same command lines in a fresh interpreter with the real multiprocessing.Pool.
 """
 import errno
 import itertools
+import os
 
 from mc.faults import MemStore, LogicalClock, gunzip_all_members
 
 ID = 'C19'
 RULE = ('all words over P paths up to length n x maxHandles x pruneEvery x fault plan (none; EMFILE (also ENFILE) when >=k descriptors open, '
         'k=1..3; every set of <=2 failing open() calls; one permanently failing path; the same with stale files of an earlier run at '
-        'the paths and after an earlier writer object of the same process); both methods (gzip / plain); '
-        'non-trivial = an injected failure was hit while >=1 other descriptor was open; states = distinct executions')
+        'the paths and after an earlier writer object of the same process; forceAppend with and without such files; an explicit close() of the writer before any write of the sequence); both methods (gzip / plain); '
+        'non-trivial = an injected failure was hit while >=1 other descriptor was open; states = distinct executions. '
+        'FastqHandle: words over 3 cells + a record without cell index x paired/single end x maxHandles x fault plan. '
+        'BAM splitter: all words over the read alphabet (cells A,B,C; untagged; "X Y" and "X_Y" which share a cleaned file name; '
+        'unmapped read of A; integer tag; "D/1") up to the bound x max_handles x head x mode (call with skip = {} / one cell / '
+        'default arguments; the script as __main__ with its own loop; a few real-Pool runs in a fresh interpreter); '
+        'non-trivial = more cells than max_handles (cells wait / further pass) or head ends the pass early')
 ASSUMPTIONS = [
     'the operating system is represented by an in-memory store: open fails only as injected; writes and closes never fail',
     'after a legitimately raised write() the run stops (callers abort); everything acknowledged before must be intact',
     'a raise is legitimate only if the last failed open happened while no other descriptor was open',
+    'failures of close()/write() (disk full) are outside: the property quantifies over open() failures only, so the handlers '
+    'around handle.close() in prune()/close() are not reachable inside the domain',
+    'BAM splitter: max_handles >= 1 and head >= 1 (or no head); reads without the tag belong to no cell and are outside; which '
+    'cells a pass serves is left open (any choice within the limit); with head only a prefix of every cell is demanded (and '
+    'never more than head records per call); the file of a cell is <prefix><cleaned tag value>.bam as the command line help '
+    'says, values with the same cleaned name share a file; the .bai indices are not examined',
 ]
 
 
 def bounds(tier):
     if tier == 'quick':
-        return {'paths': 3, 'max_len': 7, 'maxHandles': [1, 2, 3, 4], 'pruneEvery': [1, 2, 3, 4, 10000], 'emfile_k': [1, 2, 3],
-                'transient_failures': 2, 'methods': ['gzip for all', 'plain for len<=4'], 'sweep_paths': 200}
-    return {'paths': 3, 'max_len': 9, 'paths4_max_len': 7, 'maxHandles': [1, 2, 3, 4], 'pruneEvery': [1, 2, 3, 4, 10000],
-            'emfile_k': [1, 2, 3], 'transient_failures': 2, 'methods': ['gzip for all', 'plain for len<=5'], 'sweep_paths': 200}
+        b = {'paths': 3, 'max_len': 7, 'maxHandles': [1, 2, 3, 4], 'pruneEvery': [1, 2, 3, 4, 10000], 'emfile_k': [1, 2, 3],
+             'transient_failures': 2, 'methods': ['gzip for all', 'plain for len<=4'], 'sweep_paths': 200}
+    else:
+        b = {'paths': 3, 'max_len': 9, 'paths4_max_len': 7, 'maxHandles': [1, 2, 3, 4], 'pruneEvery': [1, 2, 3, 4, 10000],
+             'emfile_k': [1, 2, 3], 'transient_failures': 2, 'methods': ['gzip for all', 'plain for len<=5'], 'sweep_paths': 200}
+    b['fastq'] = {'letters': [0, 1, 2, 'no cell index'], 'max_len': 4 if tier == 'quick' else 5, 'ends': ['paired', 'single'],
+                  'maxHandles': [1, 2, 500]}
+    b['bam_splitter'] = bam_bounds(tier)
+    return b
 
 
 def words(P, n):
@@ -61,6 +88,14 @@ def shards(tier):
     grouped = [('group', out[i:i + G]) for i in range(0, len(out), G)]
     grouped.append(('fastq',))
     grouped.append(('sweep',))
+    bw = bam_word_list(tier)
+    GB = 24 if tier == 'quick' else 64
+    # interleave so that every group holds short and long words (even load)
+    nb = max(1, (len(bw) + GB - 1) // GB)
+    for i in range(nb):
+        grouped.append(('bam', bw[i::nb]))
+    for i in range(bam_bounds(tier)['real_pool_runs']):
+        grouped.append(('bam-real', i))
     return grouped
 
 
@@ -89,6 +124,7 @@ def execute(word, maxHandles, pruneEvery, plan, method=1):
     ack = {}
     viol = []
     raised = None
+    kw = {'forceAppend': True} if plan.get('force_append') else {}
     try:
         if plan.get('earlier_writer'):
             # history: an earlier HandleLimiter object of the same process wrote the same paths and was closed; the store's
@@ -105,9 +141,17 @@ def execute(word, maxHandles, pruneEvery, plan, method=1):
         for i, p in enumerate(word):
             path = f'/mem/cell{p}.fq.gz'
             payload = f'@r{i}:{p}\nACGT{i}\n+\nIIII{i}\n'
+            if plan.get('close_at') == i:
+                # history step: the caller closes the writer (all files flushed and complete) and goes on writing
+                try:
+                    lim.close()
+                except Exception as ex:
+                    viol.append(('close:exception:' + type(ex).__name__, repr(ex)))
+                if store.open_count != 0:
+                    viol.append(('close:descriptors-left-open-after-close', {'open': store.open_count}))
             nfail_before = len(store.failures)
             try:
-                lim.write(path, payload, method=method)
+                lim.write(path, payload, method=method, **kw)
             except Exception as ex:
                 raised = (i, type(ex).__name__)
                 new_fail = store.failures[nfail_before:]
@@ -132,6 +176,8 @@ def execute(word, maxHandles, pruneEvery, plan, method=1):
     # content oracle
     for path, payloads in ack.items():
         want = ''.join(payloads).encode()
+        if plan.get('force_append') and plan.get('stale'):
+            want = b'@stale\nNNNN\n+\n!!!!\n' + want      # forceAppend: the writer continues the file which is there
         if path not in store.files:
             viol.append(('content:file-missing-for-acknowledged-records', {'path': path}))
             continue
@@ -171,6 +217,16 @@ def plans_for(word, maxHandles, pruneEvery, method, acc_cb):
     for extra in ({'stale': True}, {'earlier_writer': True}):
         for base in ({}, {'emfile_k': 1}, {'emfile_k': 2}):
             plan = dict(base, **extra)
+            acc_cb(plan, *execute(word, maxHandles, pruneEvery, plan, method))
+    # the forceAppend option (continue the files which are there instead of starting them anew), with and without such files
+    for extra in ({'force_append': True}, {'force_append': True, 'stale': True}):
+        for base in ({}, {'emfile_k': 1}, {'emfile_k': 2}):
+            plan = dict(base, **extra)
+            acc_cb(plan, *execute(word, maxHandles, pruneEvery, plan, method))
+    # history: an explicit close() of the same writer before the i-th write, then writing goes on (files are continued)
+    for i in range(1, len(word)):
+        for base in ({}, {'emfile_k': 1}, {'stale': True}):
+            plan = dict(base, close_at=i)
             acc_cb(plan, *execute(word, maxHandles, pruneEvery, plan, method))
     for p in range(P):
         plan = {'dead_paths': [f'/mem/cell{p}.fq.gz']}
@@ -218,16 +274,38 @@ def run_word(word, tier, acc):
                 plans_for(word, mh, pe, method, lambda plan, v, i: cb(plan, v, i))
 
 
+NO_CELL = 'n'     # fastq letter: a record which carries no cell index (all such records share one file)
+
+
+def fastq_words(n):
+    """words over the cells 0,1,2 (first occurrences in order: renaming cells changes nothing) and the no-cell-index letter"""
+    for l in range(1, n + 1):
+        for w in itertools.product((0, 1, 2, NO_CELL), repeat=l):
+            seen = -1
+            ok = True
+            for x in w:
+                if x == NO_CELL:
+                    continue
+                if x > seen + 1:
+                    ok = False
+                    break
+                seen = max(seen, x)
+            if ok:
+                yield w
+
+
 class _Rec:
     def __init__(self, cell, mate, i):
-        self.tags = {'bi': cell, 'MX': 'NLAIII384C8U3'}
+        self.tags = {'MX': 'NLAIII384C8U3'}
+        if cell != NO_CELL:
+            self.tags['bi'] = cell
         self.s = f'@x{i}:{cell}:{mate}\nAC{i}\n+\nII{i}\n'
 
     def __str__(self):
         return self.s
 
 
-def execute_fastq(word, maxHandles, plan):
+def execute_fastq(word, maxHandles, plan, paired=True):
     import singlecellmultiomics.pyutils.handlelimiter as hl
     from singlecellmultiomics.fastqProcessing.fastqHandle import FastqHandle
     store = MemStore(plan)
@@ -242,9 +320,9 @@ def execute_fastq(word, maxHandles, plan):
     ack = {}
     raised = None
     try:
-        fh = FastqHandle('/mem/lib', pairedEnd=True, single_cell=True, maxHandles=maxHandles)
+        fh = FastqHandle('/mem/lib', pairedEnd=paired, single_cell=True, maxHandles=maxHandles)
         for i, cell in enumerate(word):
-            recs = (_Rec(cell, 'R1', i), _Rec(cell, 'R2', i))
+            recs = (_Rec(cell, 'R1', i), _Rec(cell, 'R2', i)) if paired else (_Rec(cell, 'R1', i),)
             n0 = len(store.failures)
             try:
                 fh.write(recs)
@@ -280,14 +358,243 @@ def execute_fastq(word, maxHandles, plan):
     for (cell, mate), payloads in ack.items():
         want = ''.join(payloads)
         holders = [p for p, c in by_content.items() if c is not None and c == want]
+        if cell == NO_CELL:
+            # records without a cell index: where they go is not named by the property, but they are written records of
+            # one group: exactly one file holds exactly them (never mixed into the file of a cell)
+            if len(holders) != 1:
+                viol.append(('fastqhandle:records-without-cell-index-not-in-exactly-one-file-of-their-own',
+                             {'mate': mate, 'files_with_exactly_them': holders, 'want': want}))
+            continue
         named = [p for p in by_content if f'.{cell}.' in p and p.endswith(f'.{mate}.fastq.gz')]
         if len(named) != 1 or by_content.get(named[0]) != want:
             viol.append(('fastqhandle:cell-file-does-not-hold-exactly-its-records',
                          {'cell': cell, 'mate': mate, 'files': {p: by_content[p] for p in named}, 'want': want}))
+    if raised is None:
+        # one file per (cell, mate): no further file with records
+        wanted = {''.join(v) for v in ack.values()}
+        for path, c in by_content.items():
+            if c and c not in wanted:
+                viol.append(('fastqhandle:file-holds-records-of-no-single-cell', {'path': path, 'content': c}))
     info = {'opens': store.open_calls, 'failures': len(store.failures),
             'hit_with_others_open': any(f[2] > 0 for f in store.failures), 'raised': raised, 'max_open': store.max_open}
     seen = set()
     return [(s, d) for s, d in viol if not (s in seen or seen.add(s))], info
+
+
+# ----------------------------------------------------------------------------------------------------------------
+# the BAM splitter (bamSplitByTag.py): one BAM per tag value under a limit on simultaneously open output files
+# ----------------------------------------------------------------------------------------------------------------
+
+def bam_bounds(tier):
+    # word sets: every word over `letters` up to max_len, plus every word over the sub-alphabets in `more` up to their length
+    if tier == 'quick':
+        return {'letters': 'abc-sumx', 'max_len': 3, 'more': [['abc-su', 4], ['abc-', 5]],
+                'max_handles': [1, 2, 3], 'head': [None, 1, 2], 'real_pool_runs': 6}
+    return {'letters': 'abc-sumix', 'max_len': 4, 'more': [['abc-su', 5], ['abc-', 6]],
+            'max_handles': [1, 2, 3, 4], 'head': [None, 1, 2, 3], 'real_pool_runs': 12}
+
+
+def bam_words(letters, n):
+    """all words of length 0..n (0: an input without reads); cells B and C are interchangeable (nothing else refers to them), so C appears only after B"""
+    for l in range(0, n + 1):
+        for w in itertools.product(letters, repeat=l):
+            seen_b = False
+            ok = True
+            for x in w:
+                if x == 'b':
+                    seen_b = True
+                elif x == 'c' and not seen_b:
+                    ok = False
+                    break
+            if ok:
+                yield ''.join(w)
+
+
+def bam_word_list(tier):
+    b = bam_bounds(tier)
+    out = list(bam_words(b['letters'], b['max_len']))
+    have = set(out)
+    for letters, n in b['more']:
+        for w in bam_words(letters, n):
+            if w not in have:
+                have.add(w)
+                out.append(w)
+    return out
+
+
+def _bam_configs(word, tier):
+    """every (mode, max_handles, head, skip) explored for one word"""
+    from gen.c19_bam import LETTERS
+    from oracles.c19_split import clean_name
+    b = bam_bounds(tier)
+    stems = []
+    for x in word:
+        v = LETTERS[x][0]
+        if v is not None and clean_name(v) not in stems:
+            stems.append(clean_name(v))
+    heads = [h for h in b['head'] if h is None or h <= len(word)]
+    for k in b['max_handles']:
+        if k > len(stems) + 1:
+            continue                                   # the limit can not bind any more: same run as the previous k
+        for h in heads:
+            yield ('main', k, h, [])
+            yield ('call', k, h, [])
+            if h is None:
+                for sk in stems:                       # an earlier pass already finished one cell
+                    yield ('call', k, h, [sk])
+    yield ('main', None, None, [])                     # -max_handles left at its default
+    yield ('call-default-skip', b['max_handles'][-1], None, None)
+
+
+def execute_bam(word, mode, k, head, skip, input_bam=None):
+    """One run of the real splitter on the BAM of `word`.  Returns (violations, info)."""
+    import shutil
+    import tempfile
+    from gen import c19_bam as G
+    from oracles import c19_split as O
+    tmp = tempfile.mkdtemp(prefix='c19bam', dir='/dev/shm')
+    viol = []
+    site = 'bamsplit:' + mode
+    try:
+        if input_bam is None:
+            input_bam = os.path.join(tmp, 'in.bam')
+            G.write_input(input_bam, word)
+        recs = G.read_records(input_bam)
+        if len(recs) != len(word):
+            from mc.bind import HarnessError
+            raise HarnessError('input BAM does not hold one record per letter')
+        stream = [(G.LETTERS[x][0], rec) for x, rec in zip(word, recs)]
+        want = O.cells(stream)
+        out = os.path.join(tmp, 'out') + os.sep
+        if not mode.startswith('main') or k is None:
+            os.mkdir(out)                               # else the command line creates its -o_folder itself
+        done = waiting = None
+        limit = k
+        if mode == 'main':
+            exc, mon = G.run_main(G.main_argv(input_bam, out, k, head), max_passes=len(want) + 2)
+            if k is None:
+                limit = 400                             # the documented default of -max_handles
+        elif mode == 'main-real':
+            err = G.run_main_subprocess(G.main_argv(input_bam, out, k, head))
+            exc, mon = None, None
+            if err is not None:
+                viol.append((site + ':run-failed', {'error': err}))
+        else:
+            exc, res, mon = G.call_function(input_bam, out, k, head, set(skip or ()), max_passes=1,
+                                            use_default_skip=(mode == 'call-default-skip'))
+            if exc is None:
+                try:
+                    done, waiting = res
+                    done, waiting = set(done), set(waiting)
+                except Exception:
+                    viol.append((site + ':result-is-not-(done, waiting)', {'result': repr(res)}))
+                    done, waiting = set(), set()
+        if exc is not None:
+            if isinstance(exc, G.Runaway):
+                viol.append((site + ':loop-does-not-terminate', {'passes_over_the_input': mon.passes, 'cells': len(want)}))
+            else:
+                viol.append((f'{site}:exception:{type(exc).__name__}', {'ex': repr(exc)}))
+        # ---- every file of the output folder
+        found = O.list_bams(out) if os.path.isdir(out) else {}
+        complete = {}
+        total = 0
+        for stem, path in found.items():
+            prob = O.container_problem(path)
+            if prob is not None:
+                viol.append((site + ':invalid-or-truncated-bam', {'file': stem + '.bam', 'problem': prob}))
+                continue
+            try:
+                got = G.read_records(path)
+            except Exception as ex:
+                viol.append((site + ':invalid-or-truncated-bam', {'file': stem + '.bam', 'problem': repr(ex)}))
+                continue
+            total += len(got)
+            if stem not in want:
+                if got:
+                    viol.append((site + ':records-in-a-file-of-no-cell', {'file': stem + '.bam', 'records': len(got)}))
+                continue
+            clause, comp = O.judge_records(got, want[stem])
+            if clause:
+                viol.append((f'{site}:{clause}', {'file': stem + '.bam', 'got': [r.split('\t')[0] for r in got],
+                                                  'want': [r.split('\t')[0] for r in want[stem]]}))
+            complete[stem] = comp and not clause
+        # ---- completeness
+        if exc is None and not any(s.endswith(':run-failed') for s, _ in viol):
+            if mode in ('main', 'main-real'):
+                if head is None:
+                    for stem in want:
+                        if stem not in found:
+                            viol.append((site + ':no-file-for-a-cell', {'cell': stem}))
+                        elif complete.get(stem) is False:
+                            viol.append((site + ':records-lost', {'cell': stem}))
+            else:
+                live = [s for s in want if s not in (skip or ())]
+                for stem in sorted(done):
+                    if stem not in want:
+                        continue
+                    if stem not in found:
+                        viol.append((site + ':cell-reported-done-without-a-file', {'cell': stem}))
+                    elif head is None and complete.get(stem) is False:
+                        viol.append((site + ':records-lost', {'cell': stem}))
+                if head is None:
+                    missing = [s for s in live if s not in done and s not in waiting]
+                    if missing:
+                        viol.append((site + ':cell-neither-written-nor-reported-waiting', {'cells': missing}))
+                if live and not (done & set(live)):
+                    viol.append((site + ':pass-serves-no-cell-although-handles-are-free', {'done': sorted(done)}))
+                if head is not None:
+                    if total > head:
+                        viol.append((site + ':more-records-written-than-head', {'head': head, 'written': total}))
+                    elif total < head and any(complete.get(s) is False for s in done if s in want):
+                        viol.append((site + ':fewer-records-written-than-head-although-more-were-there',
+                                     {'head': head, 'written': total}))
+        if mon is not None and limit is not None and mon.max_open > limit:
+            viol.append((site + ':more-output-files-open-than-max_handles', {'max_handles': limit, 'open': mon.max_open}))
+        info = {'cells': len(want), 'files': len(found), 'passes': mon.passes if mon is not None else None,
+                'max_open': mon.max_open if mon is not None else None, 'records': total,
+                'tagged': sum(len(v) for v in want.values()),
+                'waiting': bool(waiting) if waiting is not None else None, 'raised': exc is not None}
+    finally:
+        shutil.rmtree(tmp, ignore_errors=True)
+    seen = set()
+    return [(s, d) for s, d in viol if not (s in seen or seen.add(s))], info
+
+
+def _bam_case(word, mode, k, head, skip):
+    return {'kind': 'bam', 'word': word, 'mode': mode, 'max_handles': k, 'head': head, 'skip': skip}
+
+
+def _bam_report(acc, case, viols, info):
+    k = case['max_handles']
+    # non-trivial: the limit binds (more cells than handles -> cells wait / a further pass) or head stops the pass early
+    limited = k is not None and info['cells'] > k
+    early = case['head'] is not None and info['records'] < info['tagged']
+    acc.case(case, transitions=len(case['word']), nontrivial=limited or early,
+             outcome=(f"bam:{case['mode']},passes={min(info['passes'] or 0, 4)},limited={limited},early={early},"
+                      f"raised={info['raised']}"))
+    for sig, d in viols:
+        acc.violation(sig, case, d)
+
+
+def run_bam_words(ws, tier, acc):
+    import shutil
+    import tempfile
+    from gen import c19_bam as G
+    tmp = tempfile.mkdtemp(prefix='c19in', dir='/dev/shm')
+    try:
+        for word in ws:
+            inp = os.path.join(tmp, 'in.bam')
+            G.write_input(inp, word)
+            for mode, k, head, skip in _bam_configs(word, tier):
+                viols, info = execute_bam(word, mode, k, head, skip, input_bam=inp)
+                _bam_report(acc, _bam_case(word, mode, k, head, skip), viols, info)
+    finally:
+        shutil.rmtree(tmp, ignore_errors=True)
+
+
+# the same command lines with the real multiprocessing.Pool(10) in a fresh interpreter (a thin slice: one process per run)
+REAL_RUNS = [('abc', 1, None), ('asub', 2, None), ('ab-mca', 2, None), ('abcabc', None, None), ('xaxb', 1, None), ('abab', 1, 2),
+             ('a', 1, None), ('-', 1, None), ('absucx', 3, None), ('bacm', 4, 3), ('iai', 1, None), ('cbaabc', 2, 5)]
 
 
 def run_shard(shard, tier, acc):
@@ -296,16 +603,24 @@ def run_shard(shard, tier, acc):
             run_word(w, tier, acc)
     elif shard[0] == 'fastq':
         n = 4 if tier == 'quick' else 5
-        for w in words(3, n):
-            for mh in (1, 2, 500):
-                plans = [{}] + [{'emfile_k': k} for k in (1, 2, 3, 4)] + [{'fail_calls': [i]} for i in range(2 * len(w) + 2)]
-                for plan in plans:
-                    case = {'kind': 'fastq', 'word': list(w), 'maxHandles': mh, 'plan': plan}
-                    viols, info = execute_fastq(w, mh, _norm_plan(plan))
-                    acc.case(case, transitions=2 * len(w), nontrivial=info['hit_with_others_open'],
-                             outcome=f"fq:fail={min(info['failures'], 3)},others={info['hit_with_others_open']},raised={info['raised'] is not None}")
-                    for sig, d in viols:
-                        acc.violation(sig, case, d)
+        for w in fastq_words(n):
+            for paired in (True, False):
+                for mh in (1, 2, 500):
+                    plans = [{}] + [{'emfile_k': k} for k in (1, 2, 3, 4)] + [{'fail_calls': [i]} for i in range(2 * len(w) + 2)]
+                    for plan in plans:
+                        case = {'kind': 'fastq', 'word': list(w), 'maxHandles': mh, 'plan': plan, 'paired': paired}
+                        viols, info = execute_fastq(w, mh, _norm_plan(plan), paired)
+                        acc.case(case, transitions=(2 if paired else 1) * len(w), nontrivial=info['hit_with_others_open'],
+                                 outcome=(f"fq:paired={paired},nocell={NO_CELL in w},fail={min(info['failures'], 3)},"
+                                          f"others={info['hit_with_others_open']},raised={info['raised'] is not None}"))
+                        for sig, d in viols:
+                            acc.violation(sig, case, d)
+    elif shard[0] == 'bam':
+        run_bam_words(shard[1], tier, acc)
+    elif shard[0] == 'bam-real':
+        word, k, head = REAL_RUNS[shard[1]]
+        viols, info = execute_bam(word, 'main-real', k, head, [])
+        _bam_report(acc, _bam_case(word, 'main-real', k, head, []), viols, info)
     elif shard[0] == 'sweep':
         word = tuple(list(range(200)) + list(range(199, -1, -1)) + [0, 100, 199, 0])
         for mh, pe, plan in ((32, 50, {}), (32, 50, {'emfile_k': 20}), (500, 10000, {'emfile_k': 64}), (4, 1, {'emfile_k': 3}),
@@ -319,6 +634,8 @@ def run_shard(shard, tier, acc):
 
 
 def replay(case):
+    if case['kind'] == 'bam':
+        return execute_bam(case['word'], case['mode'], case['max_handles'], case['head'], case['skip'])[0]
     if case['kind'] == 'fastq':
-        return execute_fastq(tuple(case['word']), case['maxHandles'], _norm_plan(case['plan']))[0]
+        return execute_fastq(tuple(case['word']), case['maxHandles'], _norm_plan(case['plan']), case.get('paired', True))[0]
     return execute(tuple(case['word']), case['maxHandles'], case['pruneEvery'], _norm_plan(case['plan']), case['method'])[0]
